@@ -1,9 +1,12 @@
 """C20 — correlation, normalisation and information measures obey their definitions.
 
-Correspondence: utils.crosscov/crosscorr/autocov/autocorr (FFT based) , utils.zscore,
+Correspondence: utils.crosscov/crosscorr/autocov/autocorr (FFT based), utils.fftconvolve, utils.zscore,
 utils.percent_change, algorithms.seed_corrcoef, CorrelationAnalyzer.xcorr/xcorr_norm,
 algorithms.correlation_spectrum and the entropy family on the real code vs the Lean model
-`Nitime.C20` (direct sums, exact joint counts).
+`Nitime.C20` (direct sums, exact joint counts; for the 1-d covariance lanes and fftconvolve ALSO the
+model's FFT path = naive DFT of the zero-padded inputs, product, inverse, as the code does it).
+Generators are stratified over storage dtypes and amplitude decades (see RULE); every judgement is
+relative to the data's own scale.
 Oracle (independent of the Lean model): O(N^2) lagged sums with np.vdot, numpy reductions,
 collections.Counter + math.log2, metamorphic identities (lag reversal, relabelling, permutation).
 """
@@ -18,12 +21,20 @@ RULE = ('cases from one PRNG state: {crosscov,crosscorr,autocov,autocorr} x {rea
         'all_lags/debias/normalize flags, lane length 2..64 (thorough: ..256); zscore / percent_change along every axis; seed_corrcoef with '
         '1..5 targets; CorrelationAnalyzer.xcorr / xcorr_norm with 2..4 channels; correlation_spectrum; entropy (1..3 variables), '
         'conditional_entropy, mutual_information, entropy_cc, transfer_entropy (lags 1..5) over alphabets of size 1..6 with arbitrary integer '
-        'labels, lengths 2..60 (thorough ..200); distinct = distinct protocol line; non-trivial = non-constant input')
-ASSUMPTIONS = ['zscore / seed_corrcoef inputs have non-zero variance along the axis, percent_change inputs have non-zero mean (monitored: generators avoid them, the count of skipped degenerate lanes is reported)',
-               'binary64 rounding inside the routines is not modelled: numeric outputs are compared at 1e-9 of the largest magnitude (+ an absolute term proportional to the input scale for FFT round-off)']
-TRUSTED_EXTRA = ['scipy.fftpack.fft/ifft inside utils.fftconvolve are NOT modelled: the model uses the direct linear convolution; FFT-vs-direct equality is established per run by correspondence only',
+        'labels, lengths 2..60 (thorough ..200). Every numeric clause is STRATIFIED over (a) the storage dtype float64 / float32 / complex128 / '
+        'complex64 / int16 / int32 / int64 / uint8 (entropy labels: int8..int64, uint8, float32, float64, bool-like, huge/tiny floats) and (b) the '
+        'amplitude decade of the data: 10^e with e cycling through a fixed grid that spans the whole range in which the second moments of the data '
+        'are normal numbers of the dtype (|e| <= 140 for 64-bit, <= 13 for 32-bit; percent_change, linear in the data: |e| <= 300 / 35), '
+        'each argument scaled independently where the definition is scale-free per argument; every comparison is relative to the '
+        "data's own scale; utils.fftconvolve on pairs of sequences of unequal lengths and all four covariance functions on 1-d lanes of every "
+        'length 2..70 are compared with BOTH the model FFT path (naive DFT, padded power-of-two length) and the direct sums; '
+        'distinct = distinct protocol line; non-trivial = non-constant input')
+ASSUMPTIONS = ['zscore / seed_corrcoef inputs have non-zero variance along the axis (relative to their own magnitude), percent_change inputs have non-zero mean (monitored: generators avoid them, the count of skipped degenerate lanes is reported)',
+               'amplitude domain: N*max|x|^2 and the smallest squares that matter are NORMAL numbers of the working dtype (float64: data in 1e-140..1e142, float32: 1e-13..1e15) — outside it even numpy\'s own mean/std/dot of the definition over- or underflow; percent_change (linear) is exercised over 1e-300..1e300',
+               'binary64 / binary32 rounding inside the routines is not modelled: numeric outputs are compared at 1e-9 (64-bit data) or 2e-4 (32-bit data) of the largest magnitude (+ an absolute term proportional to the input scale for FFT round-off)']
+TRUSTED_EXTRA = ['scipy.fftpack.fft/ifft inside utils.fftconvolve are modelled by their documented semantics (naive O(L^2) DFT of the zero-padded input, inverse with 1/L); the convolution theorem for THAT model is proved (fftconvolve_is_linear_convolution, crosscov_fft_is_lagged_sum); that scipy computes the DFT is trusted and checked per run by correspondence (ops fftconv / covfft)',
                  'np.correlate(a, v, "full") = linear convolution of a with conj(reversed v); np.corrcoef = Pearson coefficient; np.mean/np.std (population) ; np.roll; itertools.product(set(x)…) — by their documented semantics',
-                 'the theorems are about the R / C instances of the Scalar-polymorphic model text; the driver runs the Float / Float-pair instances of the same definitions (parametricity unproved)']
+                 'the theorems are about the R / C instances of the Scalar-polymorphic model text; the driver runs the Float / Float-pair instances of the same definitions (parametricity unproved); data stored in narrower dtypes are run by the model as the binary64 values they denote']
 
 
 def U():
@@ -64,14 +75,14 @@ def parse_nd(s, cplx):
     return sh, vals
 
 
-def cmp_nd(cplx, atol):
+def cmp_nd(cplx, atol, rtol=1e-9):
     def f(impl, model):
         if impl.startswith('err') or model.startswith('err'):
             return impl == model
         a, b = parse_nd(impl, cplx), parse_nd(model, cplx)
         if a is None or b is None or a[0] != b[0]:
             return False
-        return close_c(a[1], b[1], 1e-9, atol)
+        return close_c(a[1], b[1], rtol, atol)
     return f
 
 
@@ -89,25 +100,113 @@ def close_c(a, b, rtol, atol):
     return bool((np.abs(a - b) <= rtol * scale + atol).all())
 
 
-def cmp_scalar(atol):
+def cmp_scalar(atol, rtol=1e-9):
     def f(impl, model):
         if not (impl.startswith('ok ') and model.startswith('ok ')):
             return impl == model
-        return close_c(parse_flist(impl[3:]), parse_flist(model[3:]), 1e-9, atol)
+        return close_c(parse_flist(impl[3:]), parse_flist(model[3:]), rtol, atol)
     return f
 
 
-def gen_array(nr, shape, cplx, kind):
+def cmp_two_paths(cplx, atol, rtol):
+    """model line 'ok <FFT path> ; <direct path>' (flat vectors): the implementation must agree with BOTH model
+    paths and the two model paths with each other"""
+    pr = parse_clist if cplx else parse_flist
+
+    def f(impl, model):
+        a = parse_nd(impl, cplx)
+        if a is None or not (model.startswith('ok ') and ' ; ' in model):
+            return False
+        a = a[1]
+        p1, p2 = [pr(t) for t in model[3:].split(' ; ')]
+        return close_c(a, p1, rtol, atol) and close_c(a, p2, rtol, atol) and close_c(p1, p2, 1e-9, atol)
+    return f
+
+
+def gen_array(nr, shape, cplx, kind, offsets=(10.0, -3.0, 100.0)):
     n = int(np.prod(shape))
     if kind == 'int':
         a = nr.randint(-5, 6, size=n).astype(float)
     elif kind == 'offset':
-        a = nr.randn(n) + nr.choice([10.0, -3.0, 100.0])
+        a = nr.randn(n) + nr.choice(list(offsets))
     else:
         a = nr.randn(n)
     if cplx:
         a = a + 1j * (nr.randint(-5, 6, size=n).astype(float) if kind == 'int' else nr.randn(n))
     return a.reshape(shape)
+
+
+# ------------------------------------------------------------------ dtype / amplitude strata
+# Every definitional clause is scale-free or scale-covariant, so it is exercised over the whole range of
+# amplitudes in which the data's second moments are normal numbers of the storage dtype, and over the
+# storage dtypes; all judgements are relative to the data's own magnitude.
+DT = {'f8': np.float64, 'f4': np.float32, 'c16': np.complex128, 'c8': np.complex64,
+      'i2': np.int16, 'i4': np.int32, 'i8': np.int64, 'u1': np.uint8}
+REAL_DT = ['f8', 'f4', 'f8', 'i2', 'f8', 'f4', 'i8', 'f8', 'u1', 'f8', 'i4']
+CPLX_DT = ['c16', 'c8', 'c16']
+DT_NAME = {'f8': 'real', 'c16': 'complex', 'f4': 'float32', 'c8': 'complex64', 'i2': 'int', 'i4': 'int', 'i8': 'int', 'u1': 'int'}
+# decades for quantities QUADRATIC in the data (second moments must stay normal numbers of the dtype)
+EXP2 = {'d': [0, -16, 140, -7, 3, -140, 9, -100, 0, 100, -30, 30, -60, 60, -9, 6, -3, -120, 120, -13, 16, -80, 80, -45, 45, -20, 20],
+        's': [0, -7, 13, -13, 3, -3, 6, -10, 0, 10, -5, 9]}
+# decades for quantities LINEAR in the data (percent_change)
+EXP1 = {'d': [0, -300, 300, -16, 9, -200, 200, -7, 100, -100, 3, -250, 250, -50, 50, -150, 150],
+        's': [0, -35, 35, -7, 9, -20, 20, 3, -30, 30]}
+INT_HI = {'i2': [5, 300, 30000], 'i4': [5, 10 ** 4, 10 ** 6], 'i8': [5, 10 ** 6, 10 ** 9], 'u1': [5, 255, 100]}
+RTOL = {'d': 1e-9, 's': 2e-4}
+ATOLF = {'d': 1e-12, 's': 2e-6}
+
+
+def dt_name(dts, cplx):
+    """clause suffix for a pair of storage dtypes"""
+    if dts[0] == dts[1]:
+        return DT_NAME[dts[0]]
+    if 'c8' in dts and 'c16' not in dts:
+        return 'complex64'          # the only complex argument is single precision
+    return ('complex-mixed' if cplx else 'real-mixed')
+
+
+def prec(dt):
+    return 's' if dt in ('f4', 'c8') else 'd'
+
+
+class Cycle:
+    """deterministic stratification: walks through `items` (start position from the run's PRNG), so that every
+    stratum occurs in every run as soon as there are len(items) draws"""
+
+    def __init__(self, items, rng):
+        self.items, self.i = list(items), rng.randrange(len(items))
+
+    def __call__(self):
+        self.i += 1
+        return self.items[self.i % len(self.items)]
+
+
+def gen_data(nr, shape, cplx, kind, dt, e, positive=False):
+    """an array of storage dtype `dt`: float kinds = gen_array(...) * 10**e cast to the dtype; integer kinds =
+    integers of a magnitude class chosen by e"""
+    n = int(np.prod(shape))
+    if dt[0] in 'iu':
+        hi = INT_HI[dt][e % 3]
+        lo = 1 if positive else (0 if dt == 'u1' else -hi)
+        return nr.randint(lo, hi + 1, size=n).astype(DT[dt]).reshape(shape)
+    a = gen_array(nr, shape, cplx, kind, offsets=(10.0, -3.0, 100.0) if prec(dt) == 'd' else (4.0, -3.0))
+    if positive:
+        a = np.abs(a) + 0.5
+    with np.errstate(all='ignore'):
+        return (a * 10.0 ** e).astype(DT[dt])
+
+
+def wide(a):
+    """the stored values as binary64 / complex128 (exact)"""
+    a = np.asarray(a)
+    return a.astype(complex) if np.iscomplexobj(a) else a.astype(float)
+
+
+def magnitude(*arrs):
+    m = 1.0
+    for a in arrs:
+        m *= float(np.abs(wide(a)).max())
+    return m
 
 
 def gen_shape(rng, tier, nmax):
@@ -143,7 +242,14 @@ def disciplined(f, arrays, variant):
     identity-keyed memo would answer with the stale result).  Returns (result, input_mutated)."""
     arrays = [np.asarray(a) for a in arrays]
     if variant == 'reuse':
-        bufs = [np.ascontiguousarray(a[..., ::-1] * 3 + 1) if a.dtype.kind in 'fc' else np.ascontiguousarray(a[..., ::-1] + 1) for a in arrays]
+        def other(a):
+            with np.errstate(all='ignore'):
+                if a.dtype.kind in 'fc':
+                    return np.ascontiguousarray((a[..., ::-1] * 3 + np.abs(a).max()).astype(a.dtype))
+                if a.dtype.kind in 'iu':
+                    return np.ascontiguousarray((a[..., ::-1] // 2 + 1).astype(a.dtype))
+                return np.ascontiguousarray(a[..., ::-1])
+        bufs = [other(a) for a in arrays]
         try:
             f(*bufs)
         except Exception:  # noqa
@@ -177,12 +283,28 @@ def cov_call(fn, x, y, axis, al, db, nm, pass_db=True):
     return getattr(u, fn)(x, **kw)
 
 
-def mk_cov_case(fn, x, y, axis, al, db, nm, variant='plain'):
-    cplx = bool(np.iscomplexobj(x))
-    sh, xd = arr_tok(x)
-    line = 'C20 %s %s %d %d %d %d %s %s' % (fn, 'c' if cplx else 'r', axis, al, db, nm, sh, xd)
+def restore(tok, cplx, dt):
+    """the stored array from its protocol tokens (exact)"""
+    a = un_tok(tok, cplx)
+    if cplx and dt not in ('c16', 'c8'):
+        a = a.real
+    return a.astype(DT[dt])
+
+
+def mk_cov_case(fn, x, y, axis, al, db, nm, variant='plain', dts=('f8', 'f8'), paths=False):
+    """x, y in their storage dtypes `dts`; the protocol line carries the stored values as binary64 (complex for both
+    as soon as one of them is complex).  paths=True (1-d only): op `covfft`, the model prints its FFT path and its
+    direct path."""
+    cplx = bool(np.iscomplexobj(x) or (y is not None and np.iscomplexobj(y)))
+    wx = wide(x).astype(complex) if cplx else wide(x)
+    wy = None if y is None else (wide(y).astype(complex) if cplx else wide(y))
+    sh, xd = arr_tok(wx)
+    if paths:
+        line = 'C20 covfft %s %s %d %d %d %s' % (fn, 'c' if cplx else 'r', al, db, nm, xd)
+    else:
+        line = 'C20 %s %s %d %d %d %d %s %s' % (fn, 'c' if cplx else 'r', axis, al, db, nm, sh, xd)
     if y is not None:
-        line += ' ' + arr_tok(y)[1]
+        line += ' ' + arr_tok(wy)[1]
     if y is None:
         f = lambda a: cov_call(fn, a, None, axis, bool(al), bool(db), bool(nm))
         impl = canon_nd(with_flag(call(lambda: disciplined(f, [x], variant))), cplx)
@@ -190,11 +312,29 @@ def mk_cov_case(fn, x, y, axis, al, db, nm, variant='plain'):
         f = lambda a, b: cov_call(fn, a, b, axis, bool(al), bool(db), bool(nm))
         impl = canon_nd(with_flag(call(lambda: disciplined(f, [x, y], variant))), cplx)
     N = x.shape[axis]
-    mag = float(np.abs(x).max()) * float(np.abs(y if y is not None else x).max()) * N
-    meta = {'op': 'cov', 'fn': fn, 'x': arr_tok(x), 'y': None if y is None else arr_tok(y), 'cplx': cplx,
-            'axis': axis, 'al': al, 'db': db, 'nm': nm, 'variant': variant}
-    nt = bool(np.ptp(np.abs(x)) > 0)
-    return Case(line, impl, 'cov/%s/%s' % (fn, 'complex' if cplx else 'real'), cmp=cmp_nd(cplx, 1e-12 * mag), meta=meta, nontrivial=nt)
+    mag = magnitude(x, y if y is not None else x) * N
+    pr = 's' if 's' in [prec(d) for d in dts] else 'd'
+    meta = {'op': 'cov', 'fn': fn, 'x': arr_tok(wx), 'y': None if y is None else arr_tok(wy), 'cplx': cplx,
+            'axis': axis, 'al': al, 'db': db, 'nm': nm, 'variant': variant, 'dts': list(dts), 'paths': paths}
+    nt = bool(np.ptp(np.abs(wx)) > 0)
+    name = dt_name(dts, cplx)
+    cmp = cmp_two_paths(cplx, ATOLF[pr] * mag, RTOL[pr]) if paths else cmp_nd(cplx, ATOLF[pr] * mag, RTOL[pr])
+    return Case(line, impl, 'cov/%s/%s' % (fn, name), cmp=cmp, meta=meta, nontrivial=nt)
+
+
+def mk_fftconv_case(a, b, variant, dts):
+    """utils.fftconvolve(a, b, mode='full') on two 1-d sequences of ANY two lengths"""
+    cplx = bool(np.iscomplexobj(a) or np.iscomplexobj(b))
+    wa = wide(a).astype(complex) if cplx else wide(a)
+    wb = wide(b).astype(complex) if cplx else wide(b)
+    line = 'C20 fftconv %s 0 %s %s' % ('c' if cplx else 'r', arr_tok(wa)[1], arr_tok(wb)[1])
+    f = lambda p_, q_: U().fftconvolve(p_, q_, mode='full', axis=0)
+    impl = canon_nd(with_flag(call(lambda: disciplined(f, [a, b], variant))), cplx)
+    pr = 's' if 's' in [prec(d) for d in dts] else 'd'
+    mag = magnitude(a, b) * min(len(a), len(b))
+    name = dt_name(dts, cplx)
+    meta = {'op': 'fftconv', 'a': arr_tok(wa), 'b': arr_tok(wb), 'cplx': cplx, 'variant': variant, 'dts': list(dts)}
+    return Case(line, impl, 'fft/fftconvolve/' + name, cmp=cmp_two_paths(cplx, ATOLF[pr] * mag, RTOL[pr]), meta=meta)
 
 
 def seq_gen(rng, n, k, canonical=False):
@@ -202,10 +342,33 @@ def seq_gen(rng, n, k, canonical=False):
     return [rng.choice(labels) for _ in range(n)]
 
 
-def ent_impl(fn, seqs, lag=None, variant='plain'):
+LABELS = ['i8', 'i1', 'f8', 'u1', 'i8', 'f4', 'tiny', 'i2', 'huge', 'str', 'i8', 'i4']
+
+
+def label_cast(s_, lab):
+    """an injective re-expression of the integer labels (-20..77) in another storage type"""
+    a = np.array(s_)
+    if lab == 'i8':
+        return a
+    if lab in ('i1', 'i2', 'i4'):
+        return a.astype({'i1': np.int8, 'i2': np.int16, 'i4': np.int32}[lab])
+    if lab == 'u1':
+        return (a + 20).astype(np.uint8)
+    if lab == 'f8':
+        return a * 0.5
+    if lab == 'f4':
+        return (a * 0.5).astype(np.float32)
+    if lab == 'tiny':
+        return a * 1e-300
+    if lab == 'huge':
+        return a * 1e300
+    return np.array(['s%d' % v for v in s_])
+
+
+def ent_impl(fn, seqs, lag=None, variant='plain', lab='i8'):
     import importlib
     E = importlib.import_module('nitime.algorithms.entropy')
-    xs = [np.array(s) for s in seqs]
+    xs = [label_cast(s, lab) for s in seqs]
 
     def f(*xs):
         if fn == 'entropy':
@@ -224,10 +387,10 @@ def ent_impl(fn, seqs, lag=None, variant='plain'):
     return 'ok ' + flist([float(v)])
 
 
-def mk_ent_case(fn, seqs, lag=None, variant='plain'):
+def mk_ent_case(fn, seqs, lag=None, variant='plain', lab='i8'):
     line = 'C20 %s %s%s' % (fn if fn != 'te' else 'te', ('%d ' % lag) if fn == 'te' else '', ' '.join(ilist(s) for s in seqs))
-    impl = call(lambda: ent_impl(fn, seqs, lag, variant))
-    meta = {'op': 'ent', 'fn': fn, 'seqs': [list(s) for s in seqs], 'lag': lag, 'variant': variant}
+    impl = call(lambda: ent_impl(fn, seqs, lag, variant, lab))
+    meta = {'op': 'ent', 'fn': fn, 'seqs': [list(s) for s in seqs], 'lag': lag, 'variant': variant, 'lab': lab}
     return Case(line, impl, 'entropy/' + fn + ('%d' % len(seqs) if fn == 'entropy' else ''), cmp=cmp_scalar(1e-9), meta=meta,
                 nontrivial=len(set(seqs[0])) > 1)
 
@@ -308,33 +471,71 @@ def seedcc_impl(seedv, targ, one_d, variant):
     return r if isinstance(r, str) else 'ok ' + flist(r)
 
 
+PAIR_EXP = {'d': [(0, 0), (140, 140), (-140, -140), (9, 3), (80, 80), (-80, -80), (140, -140), (-100, 60), (0, -120), (100, 0),
+                  (-16, -16), (40, 40), (-40, -40), (-7, -7), (120, 100), (-120, -100), (0, 0), (77, 78), (-78, -77)],
+            's': [(0, 0), (13, 13), (-13, -13), (-7, 3), (10, 10), (-10, -10), (13, -13), (0, -12), (6, 6), (-5, -5), (12, 9), (-12, -9)]}
+
+
+def degenerate(w, ax):
+    """a lane whose spread is negligible RELATIVE to its own magnitude"""
+    w = wide(w)
+    top = np.abs(w).max(axis=ax)
+    return bool((np.std(w, axis=ax) <= 1e-6 * top).any())
+
+
 def cases(rng, tier, seed):
     import common
     nr = common.np_rng(PID, seed, 'arrays')
     k = {'quick': 4, 'thorough': 40}[tier]
     nmax = 64 if tier == 'quick' else 256
     out = []
+    dts_r, dts_c = Cycle(REAL_DT, rng), Cycle(CPLX_DT, rng)
+    exp2 = {'d': Cycle(EXP2['d'], rng), 's': Cycle(EXP2['s'], rng)}
+    exp1 = {'d': Cycle(EXP1['d'], rng), 's': Cycle(EXP1['s'], rng)}
+    pair_exp = {'d': Cycle(PAIR_EXP['d'], rng), 's': Cycle(PAIR_EXP['s'], rng)}
+
+    def two_arrays(shape_x, shape_y, need_y=True):
+        """x (and y) in stratified storage dtypes and amplitude decades; y's dtype / decade independent of x's in a
+        part of the cases (the covariance is bilinear: each argument has its own scale).  A call that mixes a 32-bit
+        with a 64-bit array stays inside the 32-bit range with BOTH arguments (the code multiplies the transforms in
+        place in the first argument's precision)."""
+        cplx = rng.random() < 0.45
+        dtx = dts_c() if cplx else dts_r()
+        kind = rng.choice(['int', 'randn', 'offset'])
+        u_ = rng.random()
+        dty = dtx
+        if need_y and u_ >= 0.8:        # another storage dtype (real with complex, single with double, integer with float)
+            dty = dts_r() if (cplx and rng.random() < 0.6) or (not cplx and rng.random() < 0.5) else dts_c()
+        pr = 's' if 's' in (prec(dtx), prec(dty)) else 'd'
+        ex = exp2[pr]()
+        x = gen_data(nr, shape_x, cplx, kind, dtx, ex)
+        if not need_y:
+            return x, None, (dtx, dtx)
+        ey = ex if u_ < 0.6 else exp2[pr]()
+        y = gen_data(nr, shape_y, dty in ('c16', 'c8'), kind, dty, ey)
+        return x, y, (dtx, dty)
     # --- covariance family
     for _ in range(220 * k):
         fn = rng.choice(['crosscov', 'crosscorr', 'autocov', 'autocorr'])
         shape, axis, ax = gen_shape(rng, tier, nmax)
-        cplx = rng.random() < 0.45
-        kind = rng.choice(['int', 'randn', 'offset'])
-        x = gen_array(nr, shape, cplx, kind)
-        y = gen_array(nr, shape, cplx if rng.random() < 0.8 else not cplx, kind) if fn.startswith('cross') else None
-        if y is not None and np.iscomplexobj(y) != np.iscomplexobj(x):   # mixed real/complex: promote (numpy does the same)
-            x = x.astype(complex)
-            y = y.astype(complex)
+        x, y, dts = two_arrays(shape, shape, fn.startswith('cross'))
         al, db, nm = rng.randint(0, 1), rng.randint(0, 1), rng.randint(0, 1)
-        out.append(mk_cov_case(fn, x, y, axis, al, db, nm, rng.choice(VARIANTS)))
-    # every lane length 2..70 (FFT padding parities, odd fast lengths), 1-d, in every run
+        out.append(mk_cov_case(fn, x, y, axis, al, db, nm, rng.choice(VARIANTS), dts))
+    # every lane length 2..70 (FFT padding parities, odd fast lengths), 1-d, in every run: implementation vs the model's
+    # FFT path (naive DFT of the padded power-of-two length) AND vs the direct sums
     fns = ['crosscov', 'crosscorr', 'autocov', 'autocorr']
-    for N in range(2, 71):
-        fn = fns[(N + seed) % 4]
-        cplx = (N // 4 + seed) % 2 == 1
-        x = gen_array(nr, [N], cplx, 'randn')
-        y = gen_array(nr, [N], cplx, 'offset') if fn.startswith('cross') else None
-        out.append(mk_cov_case(fn, x, y, -1, rng.randint(0, 1), rng.randint(0, 1), rng.randint(0, 1), VARIANTS[1 + N % 4]))
+    for rep_ in range(1 if tier == 'quick' else 3):
+        for N in range(2, 71 if tier == 'quick' else 200):
+            fn = fns[(N + seed + rep_) % 4]
+            x, y, dts = two_arrays([N], [N], fn.startswith('cross'))
+            out.append(mk_cov_case(fn, x, y, -1, rng.randint(0, 1), rng.randint(0, 1), rng.randint(0, 1), VARIANTS[1 + N % 4], dts, paths=True))
+    # utils.fftconvolve itself on pairs of sequences of any two lengths (1 included)
+    for i in range(40 * k):
+        na, nb = rng.choice([1, 2, 3, rng.randint(1, nmax)]), rng.choice([1, 2, 5, rng.randint(1, nmax), rng.randint(1, nmax)])
+        if i % 7 == 0:
+            nb = max(1, 2 ** rng.randint(1, 6) + 1 - na)        # size = len(a)+len(b)-1 an exact power of two
+        a, b, dts = two_arrays([na], [nb])
+        out.append(mk_fftconv_case(a, b, rng.choice(VARIANTS), dts))
     for _ in range(6 * k):   # unequal lengths are refused
         a, b = nr.randn(rng.randint(2, 6)), nr.randn(rng.randint(7, 9))
         impl = call(lambda: 'ok ' + flist(U().crosscov(a, b)))
@@ -345,33 +546,56 @@ def cases(rng, tier, seed):
     for _ in range(60 * k):
         fn = rng.choice(['zscore', 'pchange'])
         shape, axis, ax = gen_shape(rng, tier, nmax)
-        x = nr.rand(*shape) + rng.choice([0.5, 1.0, 10.0]) if fn == 'pchange' else gen_array(nr, shape, False, rng.choice(['int', 'randn', 'offset']))
-        if fn == 'pchange' and rng.random() < 0.3:
-            x = -x
-        if fn == 'zscore' and (np.std(x, axis=ax) < 1e-6).any():
-            skipped += 1
-            continue
-        sh, xd = arr_tok(x)
+        dt = dts_r()
+        pr = prec(dt)
+        if fn == 'pchange':
+            x = gen_data(nr, shape, False, 'randn', dt, exp1[pr](), positive=True)
+            if dt != 'u1' and rng.random() < 0.3:
+                x = -x
+        else:
+            x = gen_data(nr, shape, False, rng.choice(['int', 'randn', 'offset']), dt, exp2[pr]())
+            if degenerate(x, ax):
+                skipped += 1
+                continue
+        sh, xd = arr_tok(wide(x))
         variant = rng.choice(VARIANTS)
         impl = norm_impl(fn, x, axis, variant)
-        out.append(Case('C20 %s %d %s %s' % (fn, axis, sh, xd), impl, 'norm/' + fn, cmp=cmp_nd(False, 1e-9),
-                        meta={'op': fn, 'x': arr_tok(x), 'axis': axis, 'variant': variant}))
-    # --- seed_corrcoef
+        out.append(Case('C20 %s %d %s %s' % (fn, axis, sh, xd), impl, 'norm/' + fn + ('' if dt == 'f8' else '/' + DT_NAME[dt]),
+                        cmp=cmp_nd(False, RTOL[pr], RTOL[pr]),
+                        meta={'op': fn, 'x': arr_tok(wide(x)), 'axis': axis, 'variant': variant, 'dt': dt}))
+    # --- seed_corrcoef (scale-free in each argument separately)
     for _ in range(40 * k):
         n = rng.randint(3, min(nmax, 40))
         nt = rng.randint(1, 5)
-        seedv, targ = gen_array(nr, [n], False, 'offset'), gen_array(nr, [nt, n], False, rng.choice(['randn', 'offset']))
-        if rng.random() < 0.3:
-            targ[0] = seedv * rng.choice([2.0, -0.5]) + 1.0     # perfectly (anti)correlated row
+        dt = dts_r()
+        pr = prec(dt)
+        es, et = pair_exp[pr]()
+        seedv = gen_data(nr, [n], False, 'offset', dt, es)
+        targ = gen_data(nr, [nt, n], False, rng.choice(['randn', 'offset']), dt, et)
+        if degenerate(seedv, 0) or degenerate(targ, 1):
+            skipped += 1
+            continue
+        if rng.random() < 0.3:     # perfectly (anti)correlated row
+            with np.errstate(all='ignore'):
+                if dt[0] in 'iu':
+                    targ[0] = seedv
+                else:
+                    targ[0] = (wide(seedv) * rng.choice([2.0, -0.5]) * 10.0 ** (et - es) + np.abs(wide(targ[0])).mean()).astype(DT[dt])
+            if degenerate(targ, 1):
+                skipped += 1
+                continue
         one_d = nt == 1 and rng.random() < 0.5
         variant = rng.choice(VARIANTS)
         impl = seedcc_impl(seedv, targ, one_d, variant)
-        out.append(Case('C20 seedcc %d %s %s' % (n, flist(seedv), flist(targ.reshape(-1))), impl, 'seed_corrcoef',
-                        cmp=cmp_scalar(1e-12), meta={'op': 'seedcc', 'seed': seedv.tolist(), 'targ': targ.tolist(), 'one_d': one_d, 'variant': variant}))
-    # --- analyzer xcorr pair fill
+        clause = 'seed_corrcoef' + ('/' + DT_NAME[dt] if dt != 'f8' else '/scaled' if (es, et) != (0, 0) else '')
+        out.append(Case('C20 seedcc %d %s %s' % (n, flist(wide(seedv)), flist(wide(targ).reshape(-1))), impl, clause,
+                        cmp=cmp_scalar({'d': 1e-12, 's': RTOL['s']}[pr], RTOL[pr]),
+                        meta={'op': 'seedcc', 'seed': arr_tok(wide(seedv)), 'targ': arr_tok(wide(targ)), 'one_d': one_d, 'variant': variant,
+                              'dt': dt, 'exp': [es, et]}))
+    # --- analyzer xcorr pair fill (xcorr is quadratic in the data, xcorr_norm and corrcoef are scale-free)
     for _ in range(24 * k):
         nch, n = rng.randint(2, 4), rng.choice([2, 3, 4, 5, 8, rng.randint(2, 24)])
-        data = nr.rand(nch, n) + 0.5
+        data = (nr.rand(nch, n) + 0.5) * 10.0 ** exp2['d']()
         out += mk_xcorr_cases((rng.choice(['raw', 'norm', 'cc']),), data)
     # --- every read order of the analyzer's outputs on ONE object (all ordered pairs and all permutations)
     import itertools
@@ -379,17 +603,19 @@ def cases(rng, tier, seed):
     for rep in range(k):
         for order in orders:
             nch, n = rng.randint(2, 3), rng.choice([2, 3, 4, 5, 7, rng.randint(2, 16)])
-            out += mk_xcorr_cases(order, nr.rand(nch, n) + 0.5)
-    # --- correlation_spectrum
+            out += mk_xcorr_cases(order, (nr.rand(nch, n) + 0.5) * 10.0 ** exp2['d']())
+    # --- correlation_spectrum (scale-free in each argument separately)
     for _ in range(30 * k):
         n = rng.randint(3, min(nmax, 48))
-        a, b = nr.randn(n) + 2.0, nr.randn(n) - 1.0
+        ea, eb = pair_exp['d']()
+        a, b = (nr.randn(n) + 2.0) * 10.0 ** ea, (nr.randn(n) - 1.0) * 10.0 ** eb
         nm = rng.randint(0, 1)
         impl = call(lambda: 'ok ' + flist(TSA().correlation_spectrum(a.copy(), b.copy(), norm=bool(nm))[1]))
-        out.append(Case('C20 corrspec %d %s %s' % (nm, flist(a), flist(b)), impl, 'correlation_spectrum',
-                        cmp=cmp_scalar(1e-10 if not nm else 1e-7), meta={'op': 'corrspec', 'a': a.tolist(), 'b': b.tolist(), 'nm': nm}))
+        out.append(Case('C20 corrspec %d %s %s' % (nm, flist(a), flist(b)), impl, 'correlation_spectrum' + ('/scaled' if (ea, eb) != (0, 0) else ''),
+                        cmp=cmp_scalar(1e-10 if not nm else 1e-7), meta={'op': 'corrspec', 'a': a.tolist(), 'b': b.tolist(), 'nm': nm, 'exp': [ea, eb]}))
     # --- entropies
     lmax = 60 if tier == 'quick' else 200
+    labs = Cycle(LABELS, rng)
     for _ in range(160 * k):
         n = rng.choice([2, 3, 5, rng.randint(2, lmax), rng.randint(2, lmax)])
         fn = rng.choice(['entropy', 'entropy', 'condent', 'mi', 'ecc', 'te'])
@@ -408,7 +634,7 @@ def cases(rng, tier, seed):
             seqs[1] = [(v * 7) % 3 for v in seqs[0]] if rng.random() < 0.5 else list(seqs[0])
         if fn == 'ecc' and len(set(seqs[0])) == 1 and len(set(seqs[1])) == 1:
             seqs[0][0] += 1    # 0/0 is not interesting
-        out.append(mk_ent_case(fn, seqs, rng.randint(1, 5) if fn == 'te' else None, rng.choice(VARIANTS)))
+        out.append(mk_ent_case(fn, seqs, rng.randint(1, 5) if fn == 'te' else None, rng.choice(VARIANTS), labs()))
     if skipped:
         out.append(Case('C20 nop', 'bad-op', 'monitor/skipped-degenerate-%d' % skipped, nontrivial=False))
     return out
@@ -438,6 +664,8 @@ def direct_cov(x, y, al, db, nm):
 
 
 def un_tok(t, cplx):
+    if not isinstance(t[0], str):      # replay files written before the storage-dtype strata: plain nested lists
+        return np.array(t)
     sh = parse_ilist(t[0])
     v = parse_clist(t[1]) if cplx else parse_flist(t[1])
     return np.array(v).reshape(sh)
@@ -486,22 +714,42 @@ def check_case(c, rng=None):
         gx, _ = lanes(x, ax)
         gy, _ = lanes(y if y is not None else x, ax)
         gg, _ = lanes(got, ax)
-        mag = float(np.abs(x).max()) * float(np.abs(y if y is not None else x).max()) * N
+        dts = m.get('dts', ['c16' if cplx else 'f8'] * 2)
+        pr = 's' if 's' in [prec(d) for d in dts] else 'd'
+        rtol, atol = RTOL[pr], ATOLF[pr] * magnitude(x, y if y is not None else x) * N
+        note = ' [storage dtypes %s, max|x| = %.3g]' % ('/'.join(dts), float(np.abs(x).max()))
         for lx, ly, lg in zip(gx, gy, gg):
             want = direct_cov(lx, ly, al, db, nm)
-            if not close_c(list(lg), list(want), 1e-9, 1e-12 * mag):
+            if not close_c(list(lg), list(want), rtol, atol):
                 i = int(np.argmax(np.abs(lg - want)))
-                return fail(c, 'value', 'lag entry %d is %r, the direct lagged sum is %r' % (i, complex(lg[i]), complex(want[i])))
-        # metamorphic: lag reversal c_yx[k] = conj c_xy[-k] on the implementation itself
+                return fail(c, 'value', 'lag entry %d is %r, the direct lagged sum is %r%s' % (i, complex(lg[i]), complex(want[i]), note))
+        # metamorphic: lag reversal c_yx[k] = conj c_xy[-k] on the implementation itself (same storage dtypes)
         if y is not None:
-            full = call(lambda: cov_call(fn, x.copy(), y.copy(), axis, True, bool(m['db']), bool(nm)))
-            rev = call(lambda: cov_call(fn, y.copy(), x.copy(), axis, True, bool(m['db']), bool(nm)))
+            sx, sy = restore(m['x'], cplx, dts[0]), restore(m['y'], cplx, dts[1])
+            full = call(lambda: cov_call(fn, sx.copy(), sy.copy(), axis, True, bool(m['db']), bool(nm)))
+            rev = call(lambda: cov_call(fn, sy.copy(), sx.copy(), axis, True, bool(m['db']), bool(nm)))
             if isinstance(full, str) or isinstance(rev, str):
                 return fail(c, 'raises', 'all_lags call failed')
             f1, _ = lanes(np.asarray(full), ax)
             f2, _ = lanes(np.asarray(rev), ax)
-            if not close_c(list(f2.reshape(-1)), list(np.conj(f1[:, ::-1]).reshape(-1)), 1e-9, 1e-12 * mag):
-                return fail(c, 'lag-reversal', 'c_yx[k] != conj(c_xy[-k])')
+            if not close_c(list(f2.reshape(-1)), list(np.conj(f1[:, ::-1]).reshape(-1)), rtol, atol):
+                return fail(c, 'lag-reversal', 'c_yx[k] != conj(c_xy[-k])' + note)
+        return None
+    if op == 'fftconv':
+        cplx = m['cplx']
+        a, b = un_tok(m['a'], cplx), un_tok(m['b'], cplx)
+        r = parse_nd(c.impl, cplx)
+        if r is None:
+            return fail(c, 'raises', 'call failed: ' + c.impl[:60])
+        got = np.array(r[1])
+        if r[0] != [len(a) + len(b) - 1]:
+            return fail(c, 'shape', 'result shape %s, want [%d]' % (r[0], len(a) + len(b) - 1))
+        want = np.array([sum(a[i] * b[t - i] for i in range(max(0, t - len(b) + 1), min(t, len(a) - 1) + 1)) for t in range(len(a) + len(b) - 1)])
+        dts = m['dts']
+        pr = 's' if 's' in [prec(d) for d in dts] else 'd'
+        if not close_c(list(got), list(want), RTOL[pr], ATOLF[pr] * magnitude(a, b) * min(len(a), len(b))):
+            i = int(np.argmax(np.abs(got - want)))
+            return fail(c, 'value', 'entry %d is %r, the direct linear convolution sum is %r [storage dtypes %s]' % (i, complex(got[i]), complex(want[i]), '/'.join(dts)))
         return None
     if op in ('zscore', 'pchange'):
         x = un_tok(m['x'], False)
@@ -514,27 +762,31 @@ def check_case(c, rng=None):
         ax = m['axis'] % x.ndim
         g, _ = lanes(got, ax)
         gx, _ = lanes(x, ax)
-        for lx, lg in zip(gx, g):      # the definition, lane by lane, on THIS input
+        tol = RTOL[prec(m.get('dt', 'f8'))]
+        note = ' [storage dtype %s, max|x| = %.3g]' % (m.get('dt', 'f8'), float(np.abs(x).max()))
+        for lx, lg in zip(gx, g):      # the definition, lane by lane, on THIS input (the outputs are scale-free)
             mu = lx.sum() / len(lx)
             want = (lx - mu) / math.sqrt(((lx - mu) ** 2).sum() / len(lx)) if op == 'zscore' else (lx / mu - 1) * 100
-            if not close_c(list(lg), list(want), 1e-9, 1e-9):
-                return fail(c, 'value', 'lane is not %s of the input lane' % ('(x - mean)/std' if op == 'zscore' else '(x/mean - 1)*100'))
+            if not close_c(list(lg), list(want), tol, tol):
+                return fail(c, 'value', 'lane is not %s of the input lane%s' % ('(x - mean)/std' if op == 'zscore' else '(x/mean - 1)*100', note))
         for lg in g:
             scale = max(1.0, float(np.abs(lg).max()))
-            if abs(lg.mean()) > 1e-9 * scale:
-                return fail(c, 'mean', 'mean along the axis is %r, not 0' % float(lg.mean()))
-            if op == 'zscore' and abs(lg.var() - 1) > 1e-9:
-                return fail(c, 'variance', 'variance along the axis is %r, not 1' % float(lg.var()))
+            if not abs(lg.mean()) <= tol * scale:
+                return fail(c, 'mean', 'mean along the axis is %r, not 0%s' % (float(lg.mean()), note))
+            if op == 'zscore' and not abs(lg.var() - 1) <= 10 * tol:
+                return fail(c, 'variance', 'variance along the axis is %r, not 1%s' % (float(lg.var()), note))
         return None
     if op == 'seedcc':
         if not c.impl.startswith('ok '):
             return fail(c, 'raises', 'call failed')
         got = parse_flist(c.impl[3:])
-        s, t = np.array(m['seed']), np.array(m['targ'])
+        s, t = un_tok(m['seed'], False), un_tok(m['targ'], False)
         want = [float(np.corrcoef(s, row)[0, 1]) for row in t]
-        if len(got) != len(want) or not close_c(got, want, 1e-9, 1e-12):
-            return fail(c, 'value', 'not the Pearson coefficient: %r vs %r' % (got[:3], want[:3]))
-        if any(abs(v) > 1 + 1e-12 for v in got):
+        tol = {'d': 1e-9, 's': RTOL['s']}[prec(m.get('dt', 'f8'))]
+        if len(got) != len(want) or not close_c(got, want, tol, tol * 1e-3):
+            return fail(c, 'value', 'not the Pearson coefficient: %r vs %r [storage dtype %s, max|seed| = %.3g, max|target| = %.3g]' % (
+                got[:3], want[:3], m.get('dt', 'f8'), float(np.abs(s).max()), float(np.abs(t).max())))
+        if any(not abs(v) <= 1 + tol for v in got):
             return fail(c, 'bound', '|r| > 1')
         return None
     if op == 'xcorr':
@@ -586,8 +838,8 @@ def check_case(c, rng=None):
         if not m['nm']:
             tot = got[0] + 2 * got[1:(n + 1) // 2].sum() + (got[n // 2] if n % 2 == 0 else 0.0)
             r = float(np.corrcoef(a, b)[0, 1])
-            if abs(tot - r) > 1e-9:
-                return fail(c, 'sum', 'the spectrum sums to %r, the correlation coefficient is %r' % (float(tot), r))
+            if not abs(tot - r) <= 1e-9:
+                return fail(c, 'sum', 'the spectrum sums to %r, the correlation coefficient is %r [max|x1| = %.3g, max|x2| = %.3g]' % (float(tot), r, float(np.abs(a).max()), float(np.abs(b).max())))
         return None
     if op == 'ent':
         if not c.impl.startswith('ok '):
@@ -673,21 +925,24 @@ def replay(d):
     m = d['meta']
     op = m['op']
     if op == 'cov':
-        x = un_tok(m['x'], m['cplx'])
-        y = un_tok(m['y'], m['cplx']) if m['y'] else None
-        c = mk_cov_case(m['fn'], x, y, m['axis'], m['al'], m['db'], m['nm'], m.get('variant', 'plain'))
+        dts = m.get('dts', ['c16' if m['cplx'] else 'f8'] * 2)
+        x = restore(m['x'], m['cplx'], dts[0])
+        y = restore(m['y'], m['cplx'], dts[1]) if m['y'] else None
+        c = mk_cov_case(m['fn'], x, y, m['axis'], m['al'], m['db'], m['nm'], m.get('variant', 'plain'), tuple(dts), m.get('paths', False))
+    elif op == 'fftconv':
+        c = mk_fftconv_case(restore(m['a'], m['cplx'], m['dts'][0]), restore(m['b'], m['cplx'], m['dts'][1]), m.get('variant', 'plain'), tuple(m['dts']))
     elif op == 'ent':
-        c = mk_ent_case(m['fn'], m['seqs'], m['lag'], m.get('variant', 'plain'))
+        c = mk_ent_case(m['fn'], m['seqs'], m['lag'], m.get('variant', 'plain'), m.get('lab', 'i8'))
     elif op == 'xcorr':
         c = [q for q in mk_xcorr_cases(tuple(m.get('order', [m['which']])), m['data']) if q.meta['which'] == m['which']][0]
     elif op == 'len':
         a, b = np.array(m['a']), np.array(m['b'])
         c = Case(d['line'], call(lambda: 'ok ' + flist(U().crosscov(a, b))), d['clause'], meta=m)
     elif op in ('zscore', 'pchange'):
-        x = un_tok(m['x'], False)
+        x = restore(m['x'], False, m.get('dt', 'f8'))
         c = Case(d['line'], norm_impl(op, x, m['axis'], m.get('variant', 'plain')), d['clause'], meta=m)
     elif op == 'seedcc':
-        s, t = np.array(m['seed']), np.array(m['targ'])
+        s, t = restore(m['seed'], False, m.get('dt', 'f8')), restore(m['targ'], False, m.get('dt', 'f8'))
         c = Case(d['line'], seedcc_impl(s, t, m['one_d'], m.get('variant', 'plain')), d['clause'], meta=m)
     elif op == 'corrspec':
         a, b = np.array(m['a']), np.array(m['b'])
